@@ -277,10 +277,29 @@ class State:
                 if self.defs:
                     self._rewrite_defs(v, vs)
                 self.cons.eliminate(v, self.bounds_of(v))
+        self.absorb_unary()
         if self.defs:
             dead = [k for k, d in self.defs.items() if k in vs or _def_mentions(d, vs)]
             for k in dead:
                 del self.defs[k]
+
+    def absorb_unary(self):
+        """single-variable constraints produced by elimination become interval bounds"""
+        un = [c for c in self.cons.le if len(c.terms) == 1]
+        ue = [c for c in self.cons.eq if len(c.terms) == 1]
+        if not un and not ue:
+            return
+        for c in un:
+            self.cons.le.discard(c)
+        for c in ue:
+            self.cons.eq.discard(c)
+        for c in un:
+            try:
+                self.propagate(seed=c)
+            except Infeasible:
+                raise
+        for c in ue:
+            self.propagate(seed=c, eq=True)
 
     def kill_guards(self, cell, path=(), whole_cell=False):
         if not self.guards:
@@ -459,7 +478,7 @@ def _def_mentions(d, vs):
 # ----------------------------------------------------------------------------
 # join / widen / order on states
 # ----------------------------------------------------------------------------
-def join_states(a, b, widen=False, thresholds=()):
+def join_states(a, b, widen=False, thresholds=(), templates=False):
     out = State()
     out.tag = a.tag
     keys = set(a.cells) & set(b.cells)
@@ -490,7 +509,15 @@ def join_states(a, b, widen=False, thresholds=()):
                 c.le.add(x)
         out.cons = c
     else:
-        out.cons = join_cons(a.cons, b.cons, a.bounds_of, b.bounds_of)
+        out.cons = join_cons(a.cons, b.cons, a.bounds_of, b.bounds_of, _heap_templates(a, b) if templates else ())
+        # constraints over the payload of an enum variant that the other state does not have hold there vacuously
+        for (x, y) in ((a, b), (b, a)):
+            for c in x.cons.le:
+                if c not in out.cons.le and _vacuous(y, c):
+                    out.cons.le.add(c)
+            for c in x.cons.eq:
+                if c not in out.cons.eq and _vacuous(y, c):
+                    out.cons.eq.add(c)
     out.defs = {k: v for k, v in a.defs.items() if b.defs.get(k) == v}
     g = {}
     for k in set(a.ghost) | set(b.ghost):
@@ -508,6 +535,37 @@ def join_states(a, b, widen=False, thresholds=()):
     else:
         out.guards = {k: v for k, v in a.guards.items() if b.guards.get(k) == v}
     return out
+
+
+def _heap_templates(a, b):
+    """difference constraints x - y <= 0 between heap scalars that are related in both states:
+    makes facts that are only *implied* on each side (e.g. filled <= cap) explicit so the join keeps them"""
+    va = {v for v in a.cons.all_vars() if v[0][0] == "H"}
+    vb = {v for v in b.cons.all_vars() if v[0][0] == "H"}
+    vs = sorted(va | vb, key=repr)
+    if len(vs) < 2 or len(vs) > 8:
+        vs = vs[:8]
+    out = []
+    for x in vs:
+        for y in vs:
+            if x == y or x[0] != y[0]:
+                continue
+            out.append(LinForm({x: 1, y: -1}, 0))
+    return out
+
+
+def _vacuous(st, lf):
+    """some variable of lf lives in an enum variant that state st rules out"""
+    for (cell, path) in lf.terms:
+        for i, step in enumerate(path):
+            if isinstance(step, tuple) and step[0] == "v":
+                v = st.cells.get(cell)
+                if v is None:
+                    break
+                e = get_at(v, path[:i])
+                if isinstance(e, Enum) and step[1] not in e.variants:
+                    return True
+    return False
 
 
 def _discriminators(val, prefix=(), depth=0):
